@@ -47,6 +47,7 @@ type Solver struct {
 	Stats  SolverStats
 	dead   error
 	log    io.Writer
+	seq    int
 }
 
 // SolverSpec names a back end: "z3", "z3-new", "cvc5".
@@ -232,6 +233,9 @@ func (s *Solver) Model(vars []*Term) (map[*Term]uint64, error) {
 	if len(vars) == 0 {
 		return out, nil
 	}
+	for _, v := range vars {
+		s.define(v)
+	}
 	var sb strings.Builder
 	sb.WriteString("(get-value (")
 	for _, v := range vars {
@@ -240,8 +244,9 @@ func (s *Solver) Model(vars []*Term) (map[*Term]uint64, error) {
 	}
 	sb.WriteString("))")
 	s.send(sb.String())
-	// read a balanced s-expression
-	depth, started := 0, false
+	s.seq++
+	marker := fmt.Sprintf("eom-%d", s.seq)
+	s.send(fmt.Sprintf("(echo \"%s\")", marker))
 	var buf strings.Builder
 	for s.dead == nil {
 		line, err := s.out.ReadString('\n')
@@ -252,18 +257,10 @@ func (s *Solver) Model(vars []*Term) (map[*Term]uint64, error) {
 		if s.log != nil {
 			fmt.Fprint(s.log, "; <- "+line)
 		}
-		buf.WriteString(line)
-		for _, c := range line {
-			if c == '(' {
-				depth++
-				started = true
-			} else if c == ')' {
-				depth--
-			}
-		}
-		if started && depth <= 0 {
+		if strings.Contains(line, marker) {
 			break
 		}
+		buf.WriteString(line)
 	}
 	txt := buf.String()
 	if strings.Contains(txt, "(error") {
